@@ -10,7 +10,7 @@ Line protocol of C15. The harness exports the REAL repository at the moment of t
 `C15 reset <force 0|1> <featureNoMerges 0|1|g> <wNoMerges 0|1|g> <pr id> <src> <dst> <useQueue 0|1> <dests> <refs> <graph> <prs>`
    -> `<outcome>|<refs after>|<declined ids>|<per integration branch: dest~lossy~feature0~wcommits (oldest first)~feature at the end>;...`
       (`g` = the switch as generated from the source, Gen/Reset.lean)
-`C15 eval <pr id> <src> <dst> <useQueue 0|1> <skipQueue 0|1> <dests> <refs> <graph> <stage e|i|f> <orc bits|->`
+`C15 eval <pr id> <src> <dst> <useQueue 0|1> <skipQueue 0|1> <dests> <refs> <graph> <stage e|i|f> <orc bits|-> [<no_octopus 0|1>]`
    -> the observation of Drv/C01 after the evaluation of the pull request on that state
 -/
 namespace BertE.Drv.C15
@@ -90,21 +90,21 @@ def handle (args : List String) : String :=
       if !cg.wfb then "bad-op graph not topological" else
       let fl : Flags := ⟨parseFlag fnm genFlags.featureNoMerges, parseFlag wnm genFlags.wNoMerges⟩
       let s := mkSys cg rm ds (uq == "1") false
-      let pr : PrInfo := ⟨i, src, d⟩
+      let pr : PrInfo := ⟨i, src, d, false⟩     -- `reset` merges nothing: the option is not read
       let r := reset s cg fl hp pr (force == "1")
       let remote' := applyOps r.plan.g noRej s.remote r.plan.ops
       "|".intercalate [r.plan.outcome, showRefs remote', ",".intercalate (r.declined.map toString),
         ";".intercalate ((wBranches s pr).map (branchDetail s cg fl pr))]
     | _, _, _, _, _, _ => "bad-op reset fields"
-  | ["eval", id, src, dst, uq, sq, dests, refs, graph, stage, orc] =>
+  | "eval" :: id :: src :: dst :: uq :: sq :: dests :: refs :: graph :: stage :: orc :: opt =>
     match id.toNat?, parseDest dst, (dests.splitOn ",").mapM parseDest, parseRefs refs, parseGraph graph,
-          parseStage stage with
-    | some i, some d, some ds, some rm, some cg, some st =>
+          parseStage stage, (match opt with | [] => some false | [n] => parseOnOff n | _ => none) with
+    | some i, some d, some ds, some rm, some cg, some st, some noOct =>
       if !cg.wfb then "bad-op graph not topological" else
       let s := mkSys cg rm ds (uq == "1") (sq == "1")
-      let (s', out) := step s (.evalPr ⟨i, src, d⟩ st (parseBits orc) [])
+      let (s', out) := step s (.evalPr ⟨i, src, d, noOct⟩ st (parseBits orc) [])
       observe s' out
-    | _, _, _, _, _, _ => "bad-op eval fields"
+    | _, _, _, _, _, _, _ => "bad-op eval fields"
   | _ => "bad-op"
 
 end BertE.Drv.C15
